@@ -6,7 +6,7 @@
    reference ranges (the C06_equals theorems) and is the one relation that returns the
    reference itself. *)
 From Coq Require Import Permutation.
-From Stam Require Import Base.Tac Model.Rel Model.Search Proofs.Rel Proofs.Search.
+From Stam Require Import Base.Tac Model.Rel Model.Search Proofs.Rel Proofs.Search Proofs.SearchEach.
 
 Theorem C06_sound : forall ws o R K len h, generic o ->
   In h (search ws o R K len) -> In h (related ws o R K).
@@ -59,3 +59,13 @@ Proof.
   - split; [discriminate|]. repeat constructor; unfold wf; cbn; lia.
   - cbn. discriminate.
 Qed.
+
+(* The search from an iterator of selections (TextSelectionIterator::related_text: every reference
+   asked on its own, the answers gathered, sorted, duplicates dropped) returns exactly the known
+   selections related to SOME reference, each once - for any number of references. *)
+Theorem C06_from_iterator_exact : forall ws o refs K len h, generic o -> Forall wf refs -> known_ok K len ->
+  (In h (search_each ws o refs K len) <-> exists r, In r refs /\ In h (related ws o (mkset [r] false) K)).
+Proof. exact search_each_exact. Qed.
+
+Theorem C06_from_iterator_each_once : forall ws o refs K len, NoDup (search_each ws o refs K len).
+Proof. exact search_each_once. Qed.
